@@ -912,6 +912,23 @@ def subst(term, mapping, _memo=None):
     return out
 
 
+def resolve_phi(term, cond, value, _memo=None):
+    """View of `term` on the paths where branch condition `cond` has the given truth value: every phi on that condition is
+    replaced by the branch taken (memoised)."""
+    if _memo is None:
+        _memo = {}
+    if not isinstance(term, tuple) or not term or not isinstance(term[0], str):
+        return term
+    if term in _memo:
+        return _memo[term]
+    if term[0] == "phi" and term[1] == cond:
+        out = resolve_phi(term[2] if value else term[3], cond, value, _memo)
+    else:
+        out = map_children(term, lambda x: resolve_phi(x, cond, value, _memo))
+    _memo[term] = out
+    return out
+
+
 def show(term, depth=0, maxdepth=12):
     """Readable rendering of a term (for reports)."""
     if not isinstance(term, tuple) or not term:
